@@ -18,3 +18,29 @@ package httpc
 //@   loop 1 iteration-ensures [variable-segment-gets-the-value-verbatim] isVar ==> calls(Sprint) == 1 && fields[rangeindex] == ret(Sprint) && len(ret(Sprint)) > 0 && has(m, strsub(seg, 1, len(seg))) && unbox(arg(Sprint, 0), []any)[0] == m[strsub(seg, 1, len(seg))] && calls(nurl.PathEscape) == 0 && calls(nurl.QueryEscape) == 0
 //@   loop 1 iteration-ensures [plain-segment-kept] !isVar ==> fields[rangeindex] == seg && calls(Sprint) == 0
 //@   ensures [path-rejoined-from-segments] result == nil ==> calls(strings.Join) == 1 && u.Path == ret(strings.Join) && arg(strings.Join, 1) == "/"
+
+// buildRequest: the four tagged parts of the request struct each go where the server-side parser reads them:
+// path variables into the URL path, form values into the query, header values into the header, json values into
+// the body (with the JSON content type); a GET cannot carry a json part.
+//@ func buildRequest
+//@   prop C05
+//@   opaque Marshal, fillPath, buildFormQuery, fillHeader
+//@   let m = ret(mapping.Marshal, 0)
+//@   ensures [bad-url] ret(nurl.Parse, 1) != nil ==> result0 == nil && result1 == ret(nurl.Parse, 1) && calls(Marshal) == 0
+//@   ensures [marshal-error] ret(nurl.Parse, 1) == nil && data != nil && ret(mapping.Marshal, 1) != nil ==> result0 == nil && result1 == ret(mapping.Marshal, 1)
+//@   ensures [path-part-into-the-url] calls(fillPath) == 1 ==> arg(fillPath, 0) == ret(nurl.Parse, 0) && (data != nil ==> arg(fillPath, 1) == m["path"])
+//@   ensures [path-error] calls(fillPath) == 1 && ret(fillPath) != nil ==> result0 == nil && result1 == ret(fillPath)
+//@   ensures [get-with-json-body-refused] calls(fillPath) == 1 && ret(fillPath) == nil && data != nil && has(m, "json") && method == "GET" ==> result1 == ErrGetWithBody && result0 == nil
+//@   ensures [json-part-is-the-body] result1 == nil && data != nil && has(m, "json") ==> calls(Encode) == 1 && unbox(arg(Encode, 1), map[string]any) == m["json"] && calls(Set) == 1
+//@   ensures [form-part-into-the-query] result1 == nil && data != nil ==> calls(buildFormQuery) == 1 && arg(buildFormQuery, 1) == m["form"] && result0.URL.RawQuery == ret(buildFormQuery)
+//@   ensures [header-part-into-the-header] result1 == nil && data != nil ==> calls(fillHeader) == 1 && arg(fillHeader, 0) == result0 && arg(fillHeader, 1) == m["header"]
+//@   ensures [request-with-callers-context-and-method] result1 == nil ==> result0 == ret(http.NewRequestWithContext, 0) && arg(http.NewRequestWithContext, 0) == ctx && arg(http.NewRequestWithContext, 1) == method
+// fillHeader / buildFormQuery: every entry is added under its own key with its textual value.
+//@ func fillHeader
+//@   prop C05
+//@   requires r != nil
+//@   loop 1 iteration-ensures [entry-added-verbatim] calls(Add) == 1 && arg(Add, 1) == k && arg(Add, 2) == ret(fmt.Sprint) && calls(fmt.Sprint) == 1 && unbox(arg(fmt.Sprint, 0), []any)[0] == v
+//@ func buildFormQuery
+//@   prop C05
+//@   loop 1 iteration-ensures [entry-added-verbatim] calls(Add) == 1 && arg(Add, 1) == k && arg(Add, 2) == ret(fmt.Sprint) && calls(fmt.Sprint) == 1 && unbox(arg(fmt.Sprint, 0), []any)[0] == v
+//@   ensures [encoded-once] calls(Encode) == 1 && result == ret(Encode) && calls(u.Query) == 1
